@@ -887,3 +887,165 @@ Proof.
     intros E. destruct (check_next_round_cases _ _ E) as [->|((mn0&Hm0&Hle)&_)]; [reflexivity|exfalso].
     rewrite Hav', Emin in Hm0. inversion Hm0; subst mn0. rewrite Entpc in Hle. lia.
 Qed.
+
+(** ** Statements in the form of Properties/C06Power.v *)
+Lemma merge_point_inv kind s m vid sm :
+  (kind = KPrevote \/ kind = KPrecommit) -> merge_point kind s m = Some (vid, sm) ->
+  frame_eq s sm /\ (tinv s -> tinv sm) /\ (auth_state s -> auth_state sm).
+Proof.
+  intros Hk. unfold merge_point.
+  destruct (vm_proofs m) as [|vp0 vpl] eqn:Hp; [discriminate|]. rewrite <- Hp. clear Hp vp0 vpl.
+  destruct (find_view _ _ _) as [[vid0 st]|]; [|discriminate].
+  destruct (negb (st =? ViewFound)); [discriminate|].
+  destruct (negb (bytes_eqb _ _)); [discriminate|].
+  destruct (sigs_to_add _ _ _) as [|x0 l0] eqn:Hs; [discriminate|]. rewrite <- Hs. clear Hs.
+  pose proof (fun Ha => build_updates_auth kind (get_view s vid0)
+     (sigs_to_add (view_votes kind (get_view s vid0)) (vm_proofs m)
+        (List.length (vs_keys (v_vals (get_view s vid0))))) Hk (get_view_auth s vid0 Ha)) as Hb.
+  destruct (build_updates _ _ _) as [ups allv]. cbn [fst] in Hb.
+  destruct ups as [|u ups'] eqn:Hu; [discriminate|]. rewrite <- Hu in *. clear Hu.
+  intros E; inversion E; subst.
+  split; [apply frame_merged|]. split; [apply tinv_merged|].
+  intros Ha. apply auth_merged; [exact Hk|exact Ha|apply Hb; exact Ha].
+Qed.
+
+(** (2) in the form asked for, except that clause (a) "exactly the next round" is false (see
+    [round_change_next_refuted] in Proofs/MirrorPowerWitness.v): next or next-but-one. *)
+Theorem round_change_has_cause_partial ih ivs s o kind m s' res :
+  1 <= ih -> vs_ok ivs = true -> reachable_b ih ivs s ->
+  vote_op o = Some (kind, m) -> step s o = Ok (s', res) ->
+  v_h (k_vot s') = v_h (k_vot s) -> v_r (k_vot s') <> v_r (k_vot s) ->
+  nowrap (vs_pows (v_vals (k_vot s))) ->
+  (v_r (k_vot s') = wrap32 (v_r (k_vot s) + 1) \/
+   v_r (k_vot s') = wrap32 (wrap32 (v_r (k_vot s) + 1) + 1)) /\
+  exists vid sm, merge_point kind s m = Some (vid, sm) /\ kpos_of sm = kpos_of s /\
+    ((exists maj, byz_majority (sm_avail (v_sum (k_vot sm))) = Ok maj /\ maj <= sm_tpc (v_sum (k_vot sm))) \/
+     sm_tpc (v_sum (k_vot sm)) = sm_avail (v_sum (k_vot sm)) \/
+     (exists mn, byz_minority (sm_avail (v_sum (k_nxt sm))) = Ok mn /\
+        (mn <= sm_tpv (v_sum (k_nxt sm)) \/ mn <= sm_tpc (v_sum (k_nxt sm))))).
+Proof.
+  intros Hi Hok Hreach Hop Hstep Hh Hr Hw.
+  destruct (vote_op_step o kind m s Hop) as [Hk Es]. rewrite Es in Hstep.
+  pose proof (reachable_cinv _ _ _ Hi Hok Hreach) as Hc.
+  pose proof (reachable_tinv _ _ _ (reachable_b_reachable _ _ _ Hreach)) as Ht.
+  destruct (round_change_exact _ _ _ _ _ _ _ Hk Hc Hstep Hh Hr) as (vid&sm&Hmp&F&Pk&Hcause).
+  destruct (merge_point_inv _ _ _ _ _ Hk Hmp) as (_&Ht'&_). destruct (Ht' Ht) as [Tv _].
+  assert (Hvals : v_vals (k_vot sm) = v_vals (k_vot s)) by (destruct F as (_&(_&_&E&_)&_); symmetry; exact E).
+  rewrite <- Hvals in Hw.
+  split.
+  - destruct Hcause as [(R&_)|(R&_)]; auto.
+  - exists vid, sm. split; [exact Hmp|]. split; [exact Pk|].
+    destruct Hcause as [(_&[(_&_&[Hn|Ha])|[(_&_&(mn&Hm&Hle))|(_&_&(mn&Hm&Hle))]])|(_&_&_&(mn&Hm&Hle)&_)].
+    + left. destruct Hn as (maj&Hm&_&Hle). exists maj. split; [exact Hm|].
+      unfold tok in Tv. rewrite Tv in Hle |- *. cbn [sm_pcp sm_tpc summary_of] in *.
+      eapply N.le_trans; [exact Hle|apply block_le_total; exact Hw].
+    + right; left. destruct Ha as (_&_&_&E). exact E.
+    + right; right. exists mn. auto.
+    + right; right. exists mn. auto.
+    + right; right. exists mn. auto.
+Qed.
+
+Theorem minority_cannot_move ih ivs s o kind m s' res vid sm S mn :
+  1 <= ih -> vs_ok ivs = true -> reachable_b ih ivs s ->
+  vote_op o = Some (kind, m) -> step s o = Ok (s', res) ->
+  merge_point kind s m = Some (vid, sm) ->
+  nowrap (vs_pows (v_vals (k_vot sm))) ->
+  byz_minority (sm_avail (v_sum (k_vot sm))) = Ok mn ->
+  (forall i, has_genuine_vote (k_vot sm) i \/ has_genuine_vote (k_nxt sm) i -> In i S) ->
+  idx_power (vs_pows (v_vals (k_vot sm))) (nodup_n S) < mn ->
+  v_h (k_vot s') = v_h (k_vot s) /\ v_r (k_vot s') = v_r (k_vot s) /\ kpos_of s' = kpos_of s /\ s' = sm.
+Proof.
+  intros Hi Hok Hreach Hop Hstep Hmp Hw Hmn HS Hpow.
+  destruct (vote_op_step o kind m s Hop) as [Hk Es]. rewrite Es in Hstep.
+  pose proof (reachable_INV _ _ _ Hi Hok Hreach) as (Hc&Ha&_).
+  pose proof (reachable_tinv _ _ _ (reachable_b_reachable _ _ _ Hreach)) as Ht.
+  destruct (minority_only_merges _ _ _ _ _ _ _ _ _ _ _ Hk Hc Ha Ht Hstep Hmp Hw Hmn HS Hpow) as [E Pk].
+  destruct (merge_point_inv _ _ _ _ _ Hk Hmp) as (F&_). destruct (frame_pos _ _ F) as (Ph&Pr&_).
+  subst s'. auto.
+Qed.
+
+(** a vote message that reaches no merge point leaves the three views as they are *)
+Theorem no_merge_no_move s o kind m s' res :
+  vote_op o = Some (kind, m) -> step s o = Ok (s', res) -> merge_point kind s m = None ->
+  k_vot s' = k_vot s /\ k_nxt s' = k_nxt s /\ k_com s' = k_com s.
+Proof.
+  intros Hop Hstep Hmp. destruct (vote_op_step o kind m s Hop) as [Hk Es]. rewrite Es in Hstep.
+  destruct (handle_votes_cases _ _ _ _ _ Hk Hstep) as [(_&H)|(vid&sm&E&_)]; [exact H|].
+  rewrite E in Hmp. discriminate.
+Qed.
+
+(** ** What a replayed header does to the round: a different, certificate-carrying operation *)
+Theorem replay_round ih ivs s0 hd cp s' res :
+  cinv ih ivs s0 -> hd_height hd + 1 < two64 -> handle_replay s0 hd cp = Ok (s', res) ->
+  (hd_height hd <> v_h (k_vot s0) /\ s' = s0 /\ res = 1) \/
+  (hd_height hd = v_h (k_vot s0) /\ v_r (k_vot s0) <= cp_round cp /\
+   (v_h (k_vot s') = v_h (k_vot s0) ->
+      v_r (k_vot s') = cp_round cp \/ (res = 0 /\ v_r (k_vot s') = wrap32 (cp_round cp + 1)))).
+Proof.
+  intros H0 Hb. unfold handle_replay.
+  destruct (N.eqb_spec (hd_height hd) (v_h (k_vot s0))) as [Eh|Eh]; cbn [negb];
+    [|intros E; inversion E; subst; left; auto].
+  destruct (cp_round cp <? _) eqn:Hlt; [discriminate|]. apply N.ltb_ge in Hlt.
+  destruct (cinv_adv_jump_until ih ivs (N.to_nat (cp_round cp - v_r (k_vot s0))) s0 (cp_round cp) H0) as [H A].
+  set (s := jump_until _ s0 _) in *.
+  destruct ((v_r (k_vot s) =? cp_round cp) && (v_h (k_vot s) =? hd_height hd)) eqn:Hpos; cbn [negb]; [|discriminate].
+  apply andb_true_iff in Hpos as [Hr Hh]. apply N.eqb_eq in Hr, Hh.
+  intros Hres. right. split; [exact Eh|]. split; [exact Hlt|]. intros Hsame. revert Hres.
+  assert (Hs : forall r0, Ok (s, r0) = Ok (s', res) ->
+            v_r (k_vot s') = cp_round cp \/ (res = 0 /\ v_r (k_vot s') = wrap32 (cp_round cp + 1)))
+    by (intros r0 E; inversion E; subst; left; exact Hr).
+  destruct (hd_ok hd) eqn:Hok; cbn [negb]; [|apply Hs].
+  destruct (negb (hd_height hd =? k_init_h s) && negb (bytes_eqb (hd_prev hd) (chdr_hash s))) eqn:Hprev; [apply Hs|].
+  destruct (valset_equal (hd_vals hd) (v_vals (k_vot s)) && vs_ok (hd_vals hd)); cbn [negb]; [|apply Hs].
+  destruct (vs_ok (hd_next hd)) eqn:Hnext; cbn [negb]; [|apply Hs].
+  destruct (fold_left _ (cp_proofs cp) ([], true)) as [temp allv].
+  destruct (negb allv); [apply Hs|].
+  fold (replay_insert s hd (cp_round cp)).
+  unfold bind at 1. destruct (replay_insert s hd (cp_round cp)) as [s1|] eqn:Hins; [|discriminate].
+  pose proof (replay_checks_good _ _ _ _ (cp_round cp) H Hh Hok Hnext Hb Hprev) as Hgood.
+  destruct (cinv_replay_insert _ _ _ _ _ _ H Hgood Hins) as [H1 (_&F1b&F1c&_)].
+  assert (Hs1 : forall r0, Ok (s1, r0) = Ok (s', res) ->
+            v_r (k_vot s') = cp_round cp \/ (res = 0 /\ v_r (k_vot s') = wrap32 (cp_round cp + 1)))
+    by (intros r0 E; inversion E; subst; left; congruence).
+  destruct (pm_get temp (hd_hash hd)); [|apply Hs1].
+  unfold bind at 1. destruct (byz_majority _); [|discriminate].
+  destruct (_ <? _); [apply Hs1|].
+  unfold bind. destruct (check_voting_precommit_shift _) as [s3|] eqn:Hc; [|discriminate].
+  intros E; inversion E; subst s3 res.
+  match type of Hc with check_voting_precommit_shift ?X = _ => set (s2 := X) in * end.
+  assert (F2 : frame_eq s1 s2) by (unfold s2, frame_eq, pos_eq; cbn; repeat split).
+  pose proof (cinv_frame _ _ _ _ F2 H1) as H2. destruct (frame_pos _ _ F2) as (P2h&P2r&_).
+  destruct (check_voting_cases _ _ Hc) as [->|[(-> & _)|(p & Hin & _ & ->)]].
+  - left. congruence.
+  - right. split; [reflexivity|]. destruct (pos_advance ih ivs s2 H2) as [_ R]. rewrite R. congruence.
+  - exfalso. rewrite (pos_shift ih ivs s2 p H2 Hin) in Hsame. lia.
+Qed.
+
+(** ** Small facts stated in Properties/C06Power.v *)
+Theorem signer_set_spec pm :
+  NoDup (signer_set pm) /\
+  forall i, In i (signer_set pm) <-> exists t p sg, In (t, p) pm /\ In (i, sg) p.
+Proof.
+  split; [apply NoDup_nodup_n|]. intros i. unfold signer_set. rewrite in_nodup_n.
+  unfold signer_list. rewrite in_flat_map. split.
+  - intros ([t p]&Hin&Hi). apply in_map_iff in Hi as ([j sg]&Hj&Hsg). cbn in Hj. subst j.
+    exists t, p, sg. auto.
+  - intros (t&p&sg&Hin&Hsg). exists (t, p). split; [exact Hin|]. apply in_map_iff. exists (i, sg). auto.
+Qed.
+
+Theorem total_plain_facts pows pm :
+  nowrap pows ->
+  total_power pows pm = psum pows (sort_n (signer_set pm)) /\
+  (forall t, map_get (blocks pows pm) t <= total_power pows pm) /\
+  total_power pows pm <= sum_pows pows.
+Proof.
+  intros Hw. split; [apply total_power_plain; exact Hw|].
+  split; [intros t; apply block_le_total; exact Hw|apply total_le_avail; exact Hw].
+Qed.
+
+Theorem held_signatures_genuine v i :
+  auth_view v -> In i (signer_set (v_pv v)) \/ In i (signer_set (v_pc v)) -> has_genuine_vote v i.
+Proof.
+  intros Ha H. apply signer_genuine; [exact Ha|].
+  unfold signer_set in H. rewrite !in_nodup_n in H. exact H.
+Qed.
